@@ -9,4 +9,8 @@ prop=${1:?property id}; tier=${2:-quick}; shift; shift || true
 if [ ! -x bin/charonlint ] || [ -n "$(find checker -name '*.go' -newer bin/charonlint -print -quit)" ]; then
   ./setup.sh >/dev/null || { echo "UNDECIDED property=$prop checker build failed"; exit 2; }
 fi
+if [ "$tier" = thorough ]; then
+  # each thorough run re-loads the whole repository per variant (several GB in total): at most 2 at a time machine-wide
+  exec 9>/tmp/charonlint.thorough.lock.$(( $$ % 2 )); flock 9
+fi
 exec bin/charonlint -prop "$prop" -tier "$tier" -repo /repo -out "$here/evidence" -known "$here/known_findings.json" "$@"
